@@ -227,6 +227,8 @@ pub fn s_to_anchor_internal(s: u64, resolution: usize, invert_j: bool, flip_ij: 
         flips[1] *= next_flips[1];
     }
 
+    #[cfg(feature = "verif")]
+    crate::verif::yield_point(crate::verif::site::S2A_MID);
     flips = [NO, NO]; // Reset flips for the next loop
     for i in (0..digits.len()).rev() {
         // Scale up existing anchor
@@ -356,6 +358,8 @@ pub fn ij_to_s_internal(input: IJ, invert_j: bool, flip_ij: bool, resolution: us
         flips[1] *= next_flips[1];
     }
 
+    #[cfg(feature = "verif")]
+    crate::verif::yield_point(crate::verif::site::HILBERT_PATTERN);
     let pattern: &[usize] = if flip_ij {
         &PATTERN_FLIPPED_REVERSED
     } else {
